@@ -1,0 +1,95 @@
+//! Verification hooks (only compiled with `--cfg fuellabs_sway_verif`).
+//!
+//! All switches are thread-local: with nothing installed the compiler behaves exactly as
+//! without the hooks. No checking is done here; the hooks only hand data to callbacks
+//! installed by an external harness, or let the harness steer which passes run.
+
+use std::cell::{Cell, RefCell};
+use sway_ir::{Context, IrError, PassGroup, PassManager};
+
+/// Called instead of `pass_mgr.run(ir, pass_group, options)`. The callback decides which
+/// passes run (it owns the pass manager with all known passes registered) and may observe
+/// or replace the IR. Returning `Ok` continues to the backend with whatever is in `ir`.
+pub type IrPipelineHook = Box<
+    dyn FnMut(
+        &mut Context,
+        &mut PassManager,
+        &PassGroup,
+        &sway_ir::pass_manager::Options,
+    ) -> Result<(), IrError>,
+>;
+
+/// One function as seen by the register allocator, after allocation.
+pub struct RegallocRecord {
+    /// Printed form of every (virtual-register) op after coalescing and spilling.
+    pub ops: Vec<String>,
+    /// Comment attached to every op.
+    pub comments: Vec<String>,
+    /// The compiler's own def / use / successor sets, per op (printed registers).
+    pub defs: Vec<Vec<String>>,
+    pub uses: Vec<Vec<String>>,
+    pub succs: Vec<Vec<usize>>,
+    /// virtual register (printed) -> allocated register (printed)
+    pub mapping: Vec<(String, String)>,
+    /// Printed form of every op after registers have been substituted.
+    pub allocated_ops: Vec<String>,
+}
+
+pub type RegallocHook = Box<dyn FnMut(RegallocRecord)>;
+
+thread_local! {
+    static IR_PIPELINE: RefCell<Option<IrPipelineHook>> = const { RefCell::new(None) };
+    static ASM_OPT_MASK: Cell<Option<u32>> = const { Cell::new(None) };
+    static REGALLOC: RefCell<Option<RegallocHook>> = const { RefCell::new(None) };
+}
+
+pub fn set_ir_pipeline_hook(hook: Option<IrPipelineHook>) -> Option<IrPipelineHook> {
+    IR_PIPELINE.with(|h| std::mem::replace(&mut *h.borrow_mut(), hook))
+}
+
+pub(crate) fn run_ir_pipeline_hook(
+    ir: &mut Context,
+    pass_mgr: &mut PassManager,
+    pass_group: &PassGroup,
+    options: &sway_ir::pass_manager::Options,
+) -> Option<Result<(), IrError>> {
+    // Take the hook out while it runs so that it may itself install another one.
+    let mut hook = IR_PIPELINE.with(|h| h.borrow_mut().take())?;
+    let res = hook(ir, pass_mgr, pass_group, options);
+    IR_PIPELINE.with(|h| {
+        let mut h = h.borrow_mut();
+        if h.is_none() {
+            *h = Some(hook);
+        }
+    });
+    Some(res)
+}
+
+/// Bit i set = the i-th sub-optimisation of `AbstractInstructionSet::optimize` runs
+/// (0 const_indexing_aggregates_function, 1 constant_propagate, 2 dce, 3 simplify_cfg,
+/// 4 remove_sequential_jumps, 5 remove_redundant_moves, 6 remove_redundant_ops).
+pub const ASM_OPT_ALL: u32 = 0x7f;
+
+pub fn set_asm_opt_mask(mask: Option<u32>) {
+    ASM_OPT_MASK.with(|m| m.set(mask));
+}
+
+pub(crate) fn asm_opt_mask() -> Option<u32> {
+    ASM_OPT_MASK.with(|m| m.get())
+}
+
+pub fn set_regalloc_hook(hook: Option<RegallocHook>) -> Option<RegallocHook> {
+    REGALLOC.with(|h| std::mem::replace(&mut *h.borrow_mut(), hook))
+}
+
+pub(crate) fn regalloc_hook_installed() -> bool {
+    REGALLOC.with(|h| h.borrow().is_some())
+}
+
+pub(crate) fn regalloc_observe(record: RegallocRecord) {
+    REGALLOC.with(|h| {
+        if let Some(hook) = h.borrow_mut().as_mut() {
+            hook(record);
+        }
+    });
+}
